@@ -88,3 +88,36 @@ package termrenderers
 //@ func (*TableWriter).WriteFooter
 //@   requires wf_tw(s) && idx >= 0 && idx <= 1000000000
 //@   modifies dyn(s.term).*
+
+// ---- bar graph ----
+//@ pred wf_bar(s) := s.maxKeyLength >= 0 && s.maxKeyLength <= 4611686018427387904 && len(s.rows) <= 1000001 && s.prefixLines >= 0 && s.prefixLines <= 1 && s.maxRows >= 0 && s.maxRows <= 2000000000000
+//@      && s.BarSize >= 0 && s.BarSize <= 1000000 && len(s.subKeys) <= 1000000
+//@ func (*BarGraph).SetKeys
+//@   requires wf_bar(s) && len(keyItems) <= 1000000
+//@   ensures wf_bar(s)
+//@   loop 1 invariant wf_bar(s)
+//@ func (*BarGraph).WriteBar
+//@   requires wf_bar(s) && idx >= 0 && idx <= 1000000
+//@   ensures wf_bar(s)
+//@   loop 1 invariant wf_bar(s)
+//@   loop 2 invariant wf_bar(s) && rangelen() <= 1000001
+//@ func (*BarGraph).writeBar
+//@   requires wf_bar(s) && idx >= 0 && idx <= 1000000
+//@   modifies s.maxLineVal, s.maxRows, dyn(s.writer).*
+//@   ensures wf_bar(s)
+//@ func (*BarGraph).writeBarGrouped
+//@   requires wf_bar(s) && idx >= 0 && idx <= 1000000
+//@   modifies s.maxLineVal, s.maxRows, dyn(s.writer).*
+//@   ensures wf_bar(s)
+//@   loop 1 invariant wf_bar(s)
+//@   loop 2 invariant wf_bar(s) && 0 <= i && line >= 0 && line <= 1000001000001
+//@ func (*BarGraph).writeBarGrouped$1
+//@   requires w != nil && *s != nil && (*s).BarSize >= 0 && (*s).BarSize <= 1000000 && 0 <= *i && *i < len(*vals)
+//@   modifies ghost sw_calls(w)
+//@ func (*BarGraph).writeBarStacked
+//@   requires wf_bar(s) && idx >= 0 && idx <= 1000000
+//@   modifies s.maxLineVal, s.maxRows, dyn(s.writer).*
+//@   ensures wf_bar(s)
+//@   loop 1 invariant wf_bar(s)
+//@ func (*BarGraph).WriteFooter
+//@   requires wf_bar(s) && idx >= 0 && idx <= 1000000000
